@@ -121,6 +121,7 @@ Combine2(s, g1, g2, f1, f2) ==
              [op |-> "combine_legs2", a |-> s, groups |-> groups, qconj |-> qcs])
 GetItem(s, spec) == Store(OpGetItem(T(s), spec), [op |-> "getitem", a |-> s, spec |-> spec])
 ScaleItems(s, spec, z) == Update(s, OpScaleItems(T(s), spec, z), [op |-> "setitem_scaled", a |-> s, spec |-> spec, z |-> z])
+SetItemsFrom(s, b, spec) == Update(s, OpSetItemsFrom(T(s), T(b), spec), [op |-> "setitem_from", a |-> s, b |-> b, spec |-> spec])
 SwapAxes(s, x, y) == Update(s, OpTranspose(T(s), [a \in 1..R(s) |-> IF a = x THEN y ELSE IF a = y THEN x ELSE a]),
                            [op |-> "iswapaxes", a |-> s, x |-> x, y |-> y])
 Touch(s, o) == Update(s, T(s), [op |-> o, a |-> s])           \* isort_qdata / ipurge_zeros: no observable change
@@ -199,6 +200,8 @@ IndexSpecs(t) == {sp \in [1..TRank(t) -> UNION {AxisSpecs(IndLen(t.legs[a])) : a
 ChGetItem == CanChoose("GetItem") /\ \E s \in U : R(s) <= 3 /\ \E sp \in IndexSpecs(T(s)) : Choose([op |-> "getitem", a |-> s, spec |-> sp])
 ChScaleItems == CanChoose("ScaleItems") /\ \E s \in U : R(s) <= 3 /\ Free(s) /\ \E sp \in IndexSpecs(T(s)), z \in {<<2, 0>>, <<0, 1>>} :
                    Choose([op |-> "setitem_scaled", a |-> s, spec |-> sp, z |-> z])
+ChSetItemsFrom == CanChoose("SetItemsFrom") /\ \E s, b \in U : s # b /\ R(s) <= 3 /\ Free(s) /\ CanAdd(T(s), T(b)) /\
+                     \E sp \in IndexSpecs(T(s)) : Choose([op |-> "setitem_from", a |-> s, b |-> b, spec |-> sp])
 ChSwapAxes == CanChoose("SwapAxes") /\ \E s \in U : Free(s) /\ \E x, y \in 1..R(s) : x < y /\ Choose([op |-> "iswapaxes", a |-> s, x |-> x, y |-> y])
 ChTouch == CanChoose("Touch") /\ \E s \in U, o \in {"isort_qdata", "ipurge_zeros"} : Free(s) /\ Choose([op |-> o, a |-> s])
 ChExtend == CanChoose("Extend") /\ \E s, b \in U : \E x \in 1..R(s), y \in 1..R(b) :
@@ -207,7 +210,7 @@ ChExtend == CanChoose("Extend") /\ \E s, b \in U : \E x \in 1..R(s), y \in 1..R(
 ChAddLeg == CanChoose("AddLeg") /\ \E s, b \in U : R(s) < MaxRank /\ \E y \in 1..R(b), x \in 1..R(s) : \E i \in 0..(IndLen(T(b).legs[y]) - 1) :
                ~IsPipe(T(b).legs[y]) /\ Choose([op |-> "add_leg", a |-> s, b |-> b, y |-> y, i |-> i, x |-> x])
 
-Classes == {"Conj", "Transpose", "Tensordot", "Inner", "Trace", "Add", "Scale", "Combine", "Split", "TakeSlice", "Project", "Permute", "SortLeg", "ScaleAxis", "Concat", "TrivialLeg", "Squeeze", "Gauge", "SetEntry", "Norm", "Combine2", "GetItem", "ScaleItems", "SwapAxes", "Touch", "Extend", "AddLeg"}
+Classes == {"Conj", "Transpose", "Tensordot", "Inner", "Trace", "Add", "Scale", "Combine", "Split", "TakeSlice", "Project", "Permute", "SortLeg", "ScaleAxis", "Concat", "TrivialLeg", "Squeeze", "Gauge", "SetEntry", "Norm", "Combine2", "GetItem", "ScaleItems", "SetItemsFrom", "SwapAxes", "Touch", "Extend", "AddLeg"}
 PickClass == /\ cls = "none" /\ pending = Nil /\ nops < MaxOps
              /\ \E c \in Classes : cls' = c
              /\ UNCHANGED <<pool, used, shared, pending, last, nops, hist>>
@@ -248,6 +251,7 @@ Perform ==
       [] P.op = "getitem" -> GetItem(P.a, P.spec)
       [] P.op = "setitem_scaled" -> ScaleItems(P.a, P.spec, P.z)
       [] P.op = "iswapaxes" -> SwapAxes(P.a, P.x, P.y)
+      [] P.op = "setitem_from" -> SetItemsFrom(P.a, P.b, P.spec)
       [] P.op \in {"isort_qdata", "ipurge_zeros"} -> Touch(P.a, P.op)
       [] P.op = "extend" -> Extend(P.a, P.x, P.extra)
       [] P.op = "add_leg" -> AddLeg(P.a, P.b, P.y, P.i, P.x)
@@ -263,11 +267,11 @@ Exec == /\ pending # Nil
                                   ELSE base \cup {{o, P.a}} \cup {{o, x} : x \in {y \in Slots : {P.a, y} \in base}}
                              ELSE base
         /\ nops' = nops + 1
-        /\ hist' = Append(hist, [l |-> last', t |-> IF last'.out = 0 THEN Null ELSE pool'[last'.out]])
+        /\ hist' = Append(hist, [l |-> last', t |-> IF last'.out = 0 THEN Null ELSE pool'[last'.out], sh |-> shared'])
 
 Next == \/ ChConj \/ ChTranspose \/ ChTensordot \/ ChInner \/ ChTrace \/ ChAdd \/ ChScale \/ ChCombine \/ ChSplit
         \/ ChTakeSlice \/ ChProject \/ ChPermute \/ ChSortLeg \/ ChScaleAxis \/ ChConcat \/ ChTrivialLeg \/ ChSqueeze
-        \/ ChGauge \/ ChSetEntry \/ ChNorm \/ ChCombine2 \/ ChGetItem \/ ChScaleItems \/ ChSwapAxes \/ ChTouch
+        \/ ChGauge \/ ChSetEntry \/ ChNorm \/ ChCombine2 \/ ChGetItem \/ ChScaleItems \/ ChSetItemsFrom \/ ChSwapAxes \/ ChTouch
         \/ ChExtend \/ ChAddLeg \/ PickClass \/ Abandon \/ Exec
 Spec == Init /\ [][Next]_vars
 -----------------------------------------------------------------------------
